@@ -78,7 +78,7 @@ D_CLAUSES = {
     "C07": "eq / ne / lt / le / gt / ge / cmp / partial_cmp / max / min / clamp with every digit of every operand; is_negative with the top digit, is_positive / signum digit 0 with every digit",
     "C08": "digit k of every pow form (exponents 1, 2, 3, 5, 8, 2^31) with base digits <= k, the overflow decision with every digit",
     "C09": "digit k of every bnum->bnum cast (all 64 family pairs at 10 (N, M) pairs) with the source digits whose bits overlap it and with the sign digit beyond the source width; primitive <-> bnum casts with the operand / the low digits",
-    "C10": "from_radix_be / from_radix_le: the Some/None decision with every numeral, digit 0 of the value with the least significant numeral (every numeral for radices that are not powers of two); radix 256 with every byte beyond the width",
+    "C10": "from_radix_be / from_radix_le: the Some/None decision with every numeral, digit 0 of the value with every numeral whose weight is neither a multiple of 2^w nor beyond the type; radix 256 with every byte beyond the width; from_str_radix / FromStr with the first character fixed (digit, '0', '+', '-'): the Ok/Err decision with every other character, digit 0 with the characters that can reach it",
     "C13": "the Ok/Err decision of TryFrom<bnum> for every primitive and of BTryFrom at (N, M) pairs with exactly the digits that decide representability, the converted value with the overlapping digits",
     "C15": "from_be_slice / from_le_slice at 9 slice lengths per width: digit k with its own bytes (and the most significant byte for signed extension), the Some/None decision with every excess byte (and the retained sign byte); to_be / to_le lanes",
     "C17": "every by-value / by-reference / assign operator form of + - * & | ^ ! and unary -, Add/Div/Rem<digit>, and << >> with the 12 primitive amount types, with the same digits as the inherent operation",
